@@ -366,6 +366,16 @@ def _first_diff(a, b, path="$"):
     return "%s: %s %r became %r" % (path, a[0], a[1], b[1]), "value:%s" % a[0]
 
 
+def _xml_illegal(v):
+    if isinstance(v, str):
+        return any(c in "\ufffe\uffff" for c in v)
+    if isinstance(v, (list, tuple)):
+        return any(_xml_illegal(x) for x in v)
+    if isinstance(v, dict):
+        return any(_xml_illegal(k) or _xml_illegal(x) for k, x in v.items())
+    return False
+
+
 def tree_laws(desc, forms):
     v = build_tree(desc)
     want = norm_expected(v)
@@ -380,6 +390,8 @@ def tree_laws(desc, forms):
     }
     for form in forms:
         enc, dec = codecs[form]
+        if form == "xml" and _xml_illegal(v):
+            continue        # U+FFFE / U+FFFF are not XML characters: outside what the XML form can carry
         try:
             data = enc(v)
         except Exception as e:
